@@ -914,6 +914,15 @@ func readDamagedTableBody(tr *table.Reader, keys [][]byte, vals map[string][]byt
 			if err == table.ErrNotFound {
 				return fmt.Sprintf("hidden: Get(%q) reports not-found for a stored key instead of the pair or a corruption error", k)
 			}
+			// the same through the filter (a damaged filter block must be
+			// ignored or reported, never believed)
+			fk, fv, ferr := tr.Find(k, true, nil)
+			if ferr == table.ErrNotFound {
+				return fmt.Sprintf("hidden: Find(%q, filtered) reports not-found for a stored key instead of the pair or a corruption error", k)
+			}
+			if ferr == nil && (!bytes.Equal(fk, k) || !bytes.Equal(fv, vals[string(k)])) {
+				return fmt.Sprintf("wrong-value: Find(%q, filtered) returned %q instead of the stored pair or an error", k, fk)
+			}
 		}
 		it := tr.NewIterator(nil, nil)
 		defer it.Release()
